@@ -32,7 +32,8 @@ ASSUMPTIONS = [
     "write->read->write idempotence and the read-back are checked on the implementation in Python (numeric tokens by value); "
     "the denotation of the written text is checked in Coq by the reference interpreter sm_denote",
     "the bound used off the exact regime is 1/96 beat at the local tempo plus 0.0000005 beat times the tempo difference at every "
-    "tempo change (the writer prints tempo beats with six decimals)",
+    "tempo change (the writer prints tempo beats with six decimals); a hold/roll length may differ by the bound at its head plus the "
+    "bound at its tail (each end is less than one row early at ITS OWN tempo: C03_sm_write_cap_bound)",
 ]
 TRUSTED = ["harness/tables/sm.py (live SMConst / METRONOME / MAX_SNAP / MAX_KEYS / chart-type tables)"]
 MANIFEST = dict(
@@ -133,10 +134,20 @@ def _chart(rng, tempo, t0, ty, keys, heavy):
         last = tempo[-1][0]
         base = Fr(-((-last) // 4) * 4) + 4 * rng.choice([0, 1])
         pos += [base + Fr(1, 5), base + Fr(2, 7), base + Fr(3, 32), base + 1 + Fr(1, 9)]
+    # in a measure that needs more than 384 rows (also reachable by chance: denominators 7, 9, 11 in one measure), objects are
+    # written in row floor(position * 384) of their measure (96 rows per beat): two objects of one column closer than a row would
+    # share a written cell, which is outside the property's domain ("no two notes in one cell") - such candidates are skipped
+    cells = set()
+
+    def cell(col_, b_):
+        return (col_, int(b_ * 96))
+
     for b in pos:
         b = b + start_gap
         col = rng.randrange(keys)
         kind = rng.choice(["hits", "hits", "hits", "holds", "holds", "rolls", "mines", "lifts", "fakes", "keysounds"])
+        if cell(col, b) in cells:
+            continue
         if kind in G.HOLDS:
             ln = Fr(rng.randint(1, 3 * 4), rng.choice([1, 2, 4, 3]))
             tail = b + ln
@@ -150,12 +161,16 @@ def _chart(rng, tempo, t0, ty, keys, heavy):
             # no overlap with anything already in this column
             if any(cc == col and not (e < b or s > tail) for (cc, s, e) in used):
                 continue
+            if cell(col, tail) in cells or cell(col, tail) == cell(col, b):
+                continue
             used.add((col, b, tail))
+            cells.update([cell(col, b), cell(col, tail)])
             c[kind].append([b, col, tail])
         else:
             if any(cc == col and s <= b <= e for (cc, s, e) in used):
                 continue
             used.add((col, b, b))
+            cells.add(cell(col, b))
             c[kind].append([b, col])
     if rng.random() < 0.8:
         # no empty measure before the last object: put a tap on the line of every measure that would be empty
@@ -165,10 +180,12 @@ def _chart(rng, tempo, t0, ty, keys, heavy):
             for m in range(0, max(have)):
                 if m not in have:
                     b = Fr(4 * m)
-                    free = [col for col in range(keys) if not any(cc == col and s_ <= b <= e_ for (cc, s_, e_) in used)]
+                    free = [col for col in range(keys) if not any(cc == col and s_ <= b <= e_ for (cc, s_, e_) in used)
+                            and cell(col, b) not in cells]
                     if free and b >= tempo[0][0]:
                         col = rng.choice(free)
                         used.add((col, b, b))
+                        cells.add(cell(col, b))
                         c["hits"].append([b, col])
     out = dict(chart_type=ty, description=_tame(G.word(rng)), difficulty=rng.choice(DIFFS), difficulty_val=rng.choice([1, 5, 12, 27]),
                groove_radar=[G.fj(rng.choice([0.0, 0.5, 0.125, 1.0, 0.733])) for _ in range(5)])
